@@ -9,9 +9,10 @@ namespace Asn1.C18
 
 /-- **an untagged ANY holds exactly the complete encoding of the element it stands for** — any
     well-formed element (scalar or constructed, definite or indefinite, any length form), with any
-    bytes following -/
+    bytes following.  `anyOk`: neither the element nor anything reached through indefinite-length
+    levels carries the tag `[UNIVERSAL 0]`, which ANY refuses (end-of-octets is in its skip list). -/
 theorem any_captures_complete_encoding (cfg : DecCfg) (t : TLV) (tail : Bytes)
-    (hw : t.WF) (ho : t.okFor cfg.parse) (hne : ¬ (t.tag.cls = .universal ∧ t.tag.num = 0)) :
+    (hw : t.WF) (ho : t.okFor cfg.parse) (hne : t.anyOk = true) :
     decodeOne cfg .any (t.ser ++ tail) = .ok (.any t.ser, tail) := by
   unfold decodeOne
   rw [parseOne_ser cfg.parse t tail hw ho]
@@ -20,7 +21,7 @@ theorem any_captures_complete_encoding (cfg : DecCfg) (t : TLV) (tail : Bytes)
 /-- an EXPLICITly tagged ANY holds the complete encoding of the element inside the wrapper -/
 theorem explicit_any_captures_inner (cfg : DecCfg) (cls : TagClass) (num : Nat) (h : Bytes) (tg : Tag)
     (i : Bool) (inner : TLV) (htag : tg.cls = cls ∧ tg.num = num)
-    (hne : ¬ (inner.tag.cls = .universal ∧ inner.tag.num = 0)) :
+    (hne : inner.anyOk = true) :
     decTy cfg (.tagged true cls num .any) (.cons h tg i [inner]) = .ok (.any inner.ser) := by
   simp [decTy, htag, hne]
 
